@@ -3,7 +3,7 @@
  * deregisters / pauses A, or stops the loop, at every interleaving with the pool worker running the task (preemption-bounded).
  * Oracle: ASan (the worker must not touch a freed source/module), scheduler verdicts, and - when A stays RUNNING - exactly one
  * task event carrying the body's return value.
- * Config: --scenario 0 deliver | 1 stop | 2 deregister | 3 pause-resume | 4 quit | 5 stop+restart | 6 deliver, then the user opens descriptors (C20) */
+ * Config: --scenario 0 deliver | 1 stop | 2 deregister | 3 pause-resume | 4 quit | 5 stop+restart | 6 deliver, then the user opens descriptors (C20) | 7 stop then quit | 8 deregister then quit */
 #define _GNU_SOURCE
 #include "schedx.h"
 #include <stdio.h>
@@ -57,6 +57,8 @@ void hx_main(void) {
     case 3: m_mod_pause(A); sch_yield(); pump(2); m_mod_resume(A); for (int i = 0; i < 200 && !task_events && atomic_load(&task_finished) < 2; i++) { m_ctx_dispatch(); sch_pass(); } pump(2); break;
     case 4: break;
     case 5: m_mod_stop(A); sch_yield(); m_mod_start(A); pump(3); break;
+    case 7: m_mod_stop(A); break;                 /* the loop ends right after: the task may still be running, its module is already stopped */
+    case 8: m_mod_deregister(&A); break;          /* same, module deregistered */
     case 6: for (int i = 0; i < 200 && !task_events; i++) { m_ctx_dispatch(); sch_pass(); }      /* the task is done and its event delivered ... */
         for (int i = 0; i < NUFD6; i++) ufd6[i] = dup(0);                                        /* ... the user opens descriptors (they take the lowest free numbers) ... */
         break;                                                                                   /* ... and the loop stops: the library must not close what it does not own */
@@ -77,14 +79,14 @@ void hx_final(void) {
     if (task_events > 1) sch_fail("EV.once", "EV.once|task", "the task event was delivered %d times", task_events);
     if (task_events == 1 && task_retval != 42) sch_fail("EV.owner", "EV.owner|task-retval", "task event carries %d, the body returned 42", task_retval);
     if ((SCEN == 0 || SCEN == 6) && task_events != 1) sch_fail("EV.lost", "EV.lost|task", "the task finished but its event was never delivered to the RUNNING module");
-    if ((SCEN == 1 || SCEN == 2) && task_events && a_stops == 0) sch_fail("CB.running", "CB.running|task", "task event delivered although the module was stopped");
+    if ((SCEN == 1 || SCEN == 2 || SCEN == 7 || SCEN == 8) && task_events && a_stops == 0) sch_fail("CB.running", "CB.running|task", "task event delivered although the module was stopped");
     if (atomic_load(&task_started) > 1 && SCEN != 3 && SCEN != 5) sch_fail("TK.once", "TK.once", "the task body ran %d times", atomic_load(&task_started));
     sch_obs(task_events * 10 + a_stops);
 }
 void hx_config(int argc, char **argv) {
     for (int i = 1; i < argc - 1; i++) if (!strcmp(argv[i], "--scenario")) SCEN = atoi(argv[i + 1]);
-    static const char *sn[] = { "deliver", "stop-while-running", "deregister-while-running", "pause-resume-while-running", "quit-while-running", "stop-restart-while-running", "deliver-then-user-opens-descriptors" };
-    snprintf(cfg, sizeof cfg, "scenario=%s", sn[SCEN % 7]);
+    static const char *sn[] = { "deliver", "stop-while-running", "deregister-while-running", "pause-resume-while-running", "quit-while-running", "stop-restart-while-running", "deliver-then-user-opens-descriptors", "stop-then-quit-while-running", "deregister-then-quit-while-running" };
+    snprintf(cfg, sizeof cfg, "scenario=%s", sn[SCEN % 9]);
 }
 const char *hx_config_str(void) { return cfg; }
 int main(int argc, char **argv) { return sch_main(argc, argv); }
